@@ -2,7 +2,8 @@
    First half: the node table generated from a Pattern tree.  Second half: the ids themselves
    (the parser's thread-local counter), for every token list, fuel and behaviour of syn's parsers. *)
 From ASModel Require Import Base Tokens Report Ast IR Expand Nodes Parser FrontEnd.
-From ASProofs Require Import PatInd NodesP IdsP.
+From ASModel Require Import Print.
+From ASProofs Require Import PatInd NodesP IdsP BalanceP.
 
 (* one constant per node, in post-order: the ids defined are exactly the ids of the
    tree (a `..` inside a slice is a flag of its parent, not a node) *)
@@ -68,3 +69,13 @@ Theorem c14_history_independent : forall regex join_ok parse_expr parse_path par
   front_end_from regex join_ok parse_expr parse_path parse_closure c2 ts.
 Proof. exact front_end_history_independent. Qed.
 Print Assumptions c14_history_independent.
+
+(* ---- a necessary part of "syntactically valid Rust": the generated code is well bracketed -------
+   In the exact token sequence of the expansion (Print.expand_top: what the real expansion is compared with,
+   token by token, on every run) every opening delimiter is closed by a delimiter of the same kind, in order
+   — for every pattern and value expression whose own token lists are (they are flattened token trees: a
+   lexer produces no others). *)
+Theorem c14_expansion_well_bracketed : forall j value p,
+  balanced value -> pat_toks_ok p -> balanced (expand_top j value p).
+Proof. exact expansion_well_bracketed. Qed.
+Print Assumptions c14_expansion_well_bracketed.
